@@ -155,3 +155,23 @@ Definition spec_captures (sl : slash) (names segs : list string) : option (list 
 (** `off`: requests with encoded slashes are rejected *)
 Definition spec_rejected (sl : slash) (q : request) : bool :=
   slash_eqb sl SOff && has_enc_slash (q_rawpath q).
+
+(* ------------------------------------------------------------------ a rule set, seen from the documentation *)
+
+(** the routes of a rule set in rule-set order, with the rule they belong to;
+    a route is identified by its position in this list *)
+Record sroute := { sr_rule : nat; sr_def : ruledef; sr_route : route }.
+
+Fixpoint flat_routes (i : nat) (rs : list ruledef) : list sroute :=
+  match rs with
+  | [] => []
+  | r :: rest => map (fun rt => {| sr_rule := i; sr_def := r; sr_route := rt |}) (rl_routes r)
+                 ++ flat_routes (S i) rest
+  end.
+
+Definition sr_tokens (s : sroute) := parse_expr (rt_path (sr_route s)).
+Definition sr_segs (s : sroute) (q : request) := expr_match (sr_tokens s) (split_slash (lookup_path q)).
+
+Definition spec_answer (eng : engine) (s : sroute) (q : request) (segs : list string) : mres :=
+  of_bool (spec_route_ok eng (sr_def s) (rt_params (sr_route s)) q (declared_names (sr_tokens s)) segs).
+
